@@ -75,6 +75,7 @@ type relayItem struct {
 	remapID         uint32
 	tomb            bool
 	finished        bool // a frame that ends the call has been queued to the receiver
+	dropping        bool // a frame of the call could not be forwarded: nothing further may be
 	isOriginator    bool
 	call            RelayCall
 	destination     *Relayer
@@ -169,7 +170,7 @@ func (r *relayItems) sendIfLive(id uint32, ch chan<- *Frame, f *Frame, final boo
 	}
 
 	item, ok := r.items[id]
-	if !ok || item.tomb {
+	if !ok || item.tomb || item.dropping {
 		return false, false
 	}
 	select {
@@ -182,6 +183,16 @@ func (r *relayItems) sendIfLive(id uint32, ch chan<- *Frame, f *Frame, final boo
 	default:
 		return false, true
 	}
+}
+
+// markDropping makes sendIfLive refuse further frames for the item.
+func (r *relayItems) markDropping(id uint32) {
+	r.Lock()
+	if item, ok := r.items[id]; ok {
+		item.dropping = true
+		r.items[id] = item
+	}
+	r.Unlock()
 }
 
 // Add adds a relay item and starts its timeout. Both happen with the lock held:
@@ -760,6 +771,11 @@ func (r *Relayer) failRelayItem(items *relayItems, id uint32, reason string, err
 		return
 	}
 	if !stopped {
+		// The timeout has fired and will fail the item on its own goroutine. Until it
+		// has entombed the item, frames that follow the one that could not be
+		// forwarded must not get through: a later fragment behind a gap is not a
+		// response the receiver can make sense of.
+		items.markDropping(id)
 		return
 	}
 
